@@ -65,7 +65,8 @@ func init() {
 			k := e.zero(cpT).(*StructV)
 			k.F[0], k.F[1] = StrLit("TIMESTAMP"), StrLit("NANOSECOND")
 			ts := e.fresh("aggregator.timestamp", IntSort)
-			e.assertPC(And(IGe(ts, IntConst(new(bigInt).Neg(pow2(127)))), ILt(ts, IntConst(pow2(127)))))
+			// the aggregated "price" of the timestamp pair is a UnixNano value: it fits int64
+			e.assertPC(And(IGe(ts, IntConst(new(bigInt).Neg(pow2(63)))), ILt(ts, IntConst(pow2(63)))))
 			m.K = append(m.K, k)
 			m.V = append(m.V, IntV{T: ts})
 		}
